@@ -1,11 +1,12 @@
 from vv.core import harness
-from vv.registry import PROPS, COMMON_ASSUME, rc
+from vv.registry import PROPS, COMMON_ASSUME, rc, py
 
 harness("h_c05", ["harness/h_c05.cc"], libs=("csg",))
 
 PROPS["C05"] = dict(
     parts=[rc("h_c05", quick=dict(cases=4000, procs=8, budget_s=900),
-              thorough=dict(cases=400000, procs=16, args=["--enum", "7"], budget_s=3300))],
+              thorough=dict(cases=400000, procs=16, args=["--enum", "7"], budget_s=3300)),
+           py("vv.exe_c05", quick=dict(cases=48, procs=8, budget_s=600), thorough=dict(cases=1600, procs=16, budget_s=3000))],
     rule=("schedules: one case = (threads 1..8, frames 1..12, --first-frame, --nframes absent/0/1/../more than frames, ordered|unordered, "
           "choice sequence of length 0..60); the real CsgApplication::Run/ProcessData/Worker::Run runs in a forked child under the "
           "controlled scheduler (every tools::Mutex lock/unlock, thread begin/end/join and the harness yield points inside the reader, "
@@ -14,7 +15,9 @@ PROPS["C05"] = dict(
           "merge multiset, never two threads inside reader / merge, no deadlock (empty runnable set) or livelock (2*10^5 steps). "
           "non-trivial = >=2 threads, >=2 selected frames, >=2 real scheduling decisions (>=2 runnable threads) of which at least one "
           "deviated from the default thread. thorough additionally enumerates ALL choice sequences of length 7 for nt in {2,3} x frames "
-          "in {1,2,3} x both modes x nframes in {absent,1,2}."),
+          "in {1,2,3} x both modes x nframes in {absent,1,2}. csg_stat_nt (secondary, OS schedules only): generated topology/trajectory/"
+          "settings, the ASan csg_stat with --nt 2..8 must write byte-identical files to --nt 1 (with --do-imc, --block-length, "
+          "--first-frame, --nframes); non-trivial = >=2 selected frames."),
     assumptions=COMMON_ASSUME + [
         "interleavings are explored at hook granularity (mutex lock/unlock, thread start/end/join, harness yield points); data races between hook points are invisible",
         "the trajectory reader is a harness-side plugin producing synthetic frames (step = frame index); the format readers themselves are covered by C08",
